@@ -1,5 +1,6 @@
 import RSocketModel.Props.C09
 import RSocketModel.Engine.WireLegal
+import RSocketModel.Props.C05
 /-!
 # C08 — Frames emitted are legal RSocket for the emitter's role  (**partial**)
 
@@ -183,5 +184,16 @@ theorem c08_half_close_counterexample :
       [[.created 0 1, .pubSubscribe 0, .onSubscribe 0, .send { ty := .requestChannel, sid := 1, n := 3, data := [1] }],
        [.send (mkError 1 cApplicationError)],
        [.send (mkRequestN 1 5)]] := by decide +kernel
+
+/-! ### from queueing order to wire order -/
+
+/-- every per-stream fact above is about the order in which the engine *queues* frames
+(`Out.send`). The sender task (C05, instantiated with the engine's frames cut into any number ≥ 1
+of fragments) puts the fragments of one stream on the wire in exactly that order, each frame's
+fragments contiguous within the stream — so the same facts hold of the wire, stream by stream. -/
+theorem c08_wire_order_is_queue_order (evs : List (SendQueue.Ev (Frame × Nat))) (h : SendQueue.Legal SendQueue.init evs)
+    (hq : (SendQueue.run SendQueue.init evs).queue = []) (sid : Nat) :
+    SendQueue.wireOf sid (SendQueue.run SendQueue.init evs).wire = SendQueue.queuedFor sid evs :=
+  SendQueue.c05_drained_exact evs h hq sid
 
 end RSocketModel.Engine
